@@ -34,7 +34,8 @@ ASSUMPTIONS = C03.ASSUMPTIONS + ["non-atomicity inside one NumPy call on the sam
 ENGINE_OPTS = C03.ENGINE_OPTS
 ALLOW = {"tracing", "_tracing", "intersection_data_points"}
 MAX_REPLAYS_PER_KIND = 4
-UNREPRODUCED_IS_BENIGN = True      # a recorded conflict that no interleaving can make observable is a benign race
+# (a recorded *conflict* that no interleaving can make observable is a benign race: such cases carry
+# unobservable_ok; every other kind of candidate must reproduce like anywhere else)
 
 
 def bounds(tier):
@@ -146,8 +147,17 @@ def make_pool(rec, shared):
         def __init__(self, n=None):
             pass
 
-        def map(self, f, items):
+        def map(self, f, items, chunksize=None):
             items = list(items)
+            # multiprocessing.pool.Pool.map: tasks are cut into chunks of `chunksize` items; a chunk size of 0 yields
+            # no chunk at all (nothing runs, no error), a negative one is refused by itertools.islice
+            if chunksize is not None:
+                if isinstance(chunksize, S.SInt):
+                    chunksize = int(chunksize)
+                if chunksize < 0:
+                    raise ValueError("Stop argument for islice() must be None or an integer: 0 <= x <= sys.maxsize.")
+                if chunksize == 0:
+                    items = []
             arrays = reachable_arrays([f] + list(shared))
             rec.pre = set()
             for a in arrays:
@@ -250,6 +260,8 @@ def explore(cfg, eng, ctx):
             c = data.case(model)
             c.update(kind="pool", ignore=ignore, fmt="nan", commons=cfg["commons"], ishape=list(ishape), side=side, aggl=aggl,
                      conflict=info["conflict"])
+            if info["conflict"]:
+                c["unobservable_ok"] = True
             return c
         ctx.case_builder = builder
         struct = bool(cfg.get("struct"))
